@@ -98,9 +98,15 @@ def sh(cmd, timeout=1800, cwd=None, env=None, input=None):
 
 
 class BuildLock:
+    """file lock; one lock per name (per Coq file / per extracted model), so that checks of different
+    properties never wait for each other's slow proofs"""
+    def __init__(self, name='global'):
+        self.name = name.replace('/', '__')
+
     def __enter__(self):
-        os.makedirs(BUILD, exist_ok=True)
-        self.f = open(os.path.join(BUILD, '.lock'), 'w')
+        d = os.path.join(BUILD, 'locks')
+        os.makedirs(d, exist_ok=True)
+        self.f = open(os.path.join(d, self.name + '.lock'), 'w')
         fcntl.flock(self.f, fcntl.LOCK_EX)
         return self
 
@@ -153,7 +159,7 @@ def coq_make(targets, timeout=1500):
     vfiles = [t[:-3] + '.v' if t.endswith('.vo') else t for t in targets if not t.startswith('-')]
     if 'all' in vfiles:
         vfiles = coq_files()
-    with BuildLock():
+    if True:
         deps, missing = {}, []
         todo = list(vfiles)
         while todo:
@@ -192,6 +198,10 @@ def coq_make(targets, timeout=1500):
             return h.hexdigest()
 
         def build_one(f):
+            with BuildLock(f):
+                return build_one_locked(f)
+
+        def build_one_locked(f):
             sp = os.path.join(sdir, f.replace('/', '__') + '.stamp')
             vo = os.path.join(COQ, f[:-2] + '.vo')
             if os.path.exists(vo) and os.path.exists(sp) and open(sp).read() == stamps[f]:
@@ -223,7 +233,7 @@ def coq_make(targets, timeout=1500):
 
 def coqc_capture(vfile, timeout=900):
     """compile one file (deps must be built) and capture what it prints."""
-    with BuildLock():
+    with BuildLock(vfile):
         rc, out = sh('timeout %d coqc -Q . SCMO %s' % (timeout, vfile), cwd=COQ, timeout=timeout + 30)
     return rc == 0, out
 
@@ -325,7 +335,7 @@ def build_model(pid):
     sp = os.path.join(d, 'stamp')
     if os.path.exists(sp) and open(sp).read() == stamp and os.path.exists(os.path.join(d, 'model')):
         return True, 'cached'
-    with BuildLock():
+    with BuildLock('ext_' + pid):
         shutil.copy(extr, os.path.join(d, 'Extr.v'))
         rc, out = sh('timeout 600 coqc -Q %s SCMO Extr.v' % COQ, cwd=d, timeout=660)
         if rc != 0:
